@@ -5,6 +5,7 @@
  *
  *   ctrun_hs <scenario> [--seed S]
  *     rsa_good rsa_bad_pad rsa_bad_sep rsa_bad_version        (TLS_RSA_*)
+ *     rsav_good rsav_bad_version rsav_neg_version              (TLS_RSA_*, session negotiated below the offered version)
  *     ecdhe_good ecdhe_bad_point                              (ECDHE_RSA, ephemeral key)
  *     ecdh_good ecdh_bad_point                                (static ECDH_ECDSA key)
  *
@@ -91,7 +92,8 @@ mitm_rsa(unsigned char *rec, size_t len)
 	if (epms[0] != 0 || epms[1] != 2 || epms[n - 49] != 0) die("client premaster is not PKCS#1 v1.5");
 	if (!strcmp(scen, "rsa_bad_pad")) epms[1] = 1;
 	else if (!strcmp(scen, "rsa_bad_sep")) epms[n - 49] = 0x17;
-	else if (!strcmp(scen, "rsa_bad_version")) epms[n - 47] ^= 1;
+	else if (!strcmp(scen, "rsa_bad_version") || !strcmp(scen, "rsav_bad_version")) epms[n - 47] ^= 1;
+	else if (!strcmp(scen, "rsav_neg_version")) { epms[n - 48] = 3; epms[n - 47] = 2; }   /* the negotiated version instead of the offered one */
 	else if (!strcmp(scen, "rsa_reenc")) { /* unchanged: checks the MITM itself */ }
 	if (!br_rsa_i31_public(epms, n, &pk)) die("re-encryption failed");
 	if (getenv("HS_DEBUG")) fprintf(stderr, "epms after  %s\n", vf_hexs(epms, 32));
@@ -113,6 +115,7 @@ main(int argc, char **argv)
 	seed = (long)vf_argi(argc, argv, "--seed", 1);
 	tp_prop = "C08";
 	if (!strncmp(scen, "rsa_", 4)) { suite = 0x003C; kx = TP_KX_RSA; }
+	else if (!strncmp(scen, "rsav_", 5)) { suite = 0x002F; kx = TP_KX_RSA; }      /* negotiated version (1.1) below the version the client offered (1.2) */
 	else if (!strncmp(scen, "ecdhe_", 6)) { suite = 0xC027; kx = TP_KX_ECDHE_RSA; }
 	else if (!strncmp(scen, "ecdh_", 5)) { suite = 0xC025; kx = TP_KX_ECDH_ECDSA; }
 	else { die("unknown scenario"); return 3; }
@@ -122,6 +125,7 @@ main(int argc, char **argv)
 	tp_cfg_default(&sc, 1);
 	cc.suites = &suite; cc.nsuites = 1; cc.vmin = cc.vmax = BR_TLS12;
 	sc.suites = &suite; sc.nsuites = 1; sc.vmin = sc.vmax = BR_TLS12;
+	if (!strncmp(scen, "rsav_", 5)) { cc.vmin = BR_TLS10; cc.vmax = BR_TLS12; sc.vmin = BR_TLS10; sc.vmax = BR_TLS11; }
 	sc.keykind = (kx == TP_KX_ECDH_ECDSA) ? TP_KEY_ECEC : TP_KEY_RSA;
 	for (i = 0; i < 32; i ++) { cc.seed[i] = (unsigned char)(seed * 7 + i); sc.seed[i] = (unsigned char)(seed * 13 + 101 + i); }
 	if (!tp_ep_start(&P.c, &cc) || !tp_ep_start(&P.s, &sc)) die("reset failed");
@@ -137,7 +141,7 @@ main(int argc, char **argv)
 				/* ---- ClientKeyExchange: the part under test starts here */
 				got_cke = 1;
 				if (kx == TP_KX_RSA) {
-					if (strcmp(scen, "rsa_good") != 0) mitm_rsa(r, rl);
+					if (strcmp(scen, "rsa_good") != 0 && strcmp(scen, "rsav_good") != 0) mitm_rsa(r, rl);
 					taint_rsa_key(&tp_fx.srv_rsa.rsa);
 				} else {
 					/* hdr(5) | 16 len(3) | point len(1) | point */
